@@ -61,7 +61,9 @@ func VerifHarness_C19_scan() {
 	gm := graceMenus[1]
 	o.SoftDeleteGracePeriod, o.HardDeleteGracePeriod = gm.soft, gm.hard
 	o.MinNodes, o.MaxNodes = 0, 2*N+3
-	o.FastNodeRemovalRate, o.SlowNodeRemovalRate = 0, 0
+	// the removal rates must not influence how the reaper batches its work
+	rate := verifChoice("fast", 3)
+	o.FastNodeRemovalRate, o.SlowNodeRemovalRate = rate, 0
 	g := w.addGroup(o, 0, int64(2*N)+3, int64(N)) // desired leaves room to remove the whole batch
 	// one untainted node provides capacity; N expired tainted / force-tainted nodes, member or foreign
 	w.addNode(g, tcNone, false, 0, 0, 9000, true)
